@@ -17,7 +17,7 @@ from anytree import Resolver, ResolverError
 
 from . import invariants
 from .struct import Result, Violation, stable_hash
-from .world import HNode, World
+from .world import HNode, OpGuard, Watchdog, World
 
 KNOWN_OPEN = set()
 
@@ -418,8 +418,11 @@ def run(cfg, ops=None, rng=None):
             cache_before = len(Resolver._match_cache)
             keys_before = set(Resolver._match_cache)
             try:
-                got = rsv.glob(startnode, pat)
+                with OpGuard(3.0 + 0.05 * n, 700):
+                    got = rsv.glob(startnode, pat)
                 exc = None
+            except Watchdog as wd:
+                raise Violation(prop, "hang", step, "hang:glob", "step %d glob(start=%d, %r) does not terminate (%s)" % (step, op["s"], pat, wd))
             except Exception as e:  # noqa: BLE001
                 got, exc = None, e
             # probes (coverage only; never part of the verdict)
